@@ -166,3 +166,39 @@ func VerifH_ChanMakeRacesGet() {
 	vrt.Assert(isClosed(g1), "Close closes the channel that was handed out (no lost wake-up)")
 	vrt.Cover("chan-make-get-end")
 }
+
+// VerifH_SignalTwoSignalers: two goroutines make the first Signal() call concurrently while
+// a third sets the signal: both get the same non-nil channel and both channels are closed
+// once Set happened (no observer is left with a channel that never closes).
+func VerifH_SignalTwoSignalers() {
+	s := new(Signal)
+	vrt.Share(s)
+	var e1 error = &sigErr{1}
+	var ch1, ch2 chan struct{}
+	var d1, d2, d3 bool
+	go func() { ch1 = s.Signal(); d1 = true }()
+	go func() { ch2 = s.Signal(); d2 = true }()
+	go func() { s.Set(e1); d3 = true }()
+	vrt.Quiesce()
+	vrt.Assert(d1 && d2 && d3, "Signal, Signal and Set return")
+	vrt.Assert(ch1 != nil && ch2 != nil, "Signal never returns nil")
+	vrt.Assert(ch1 == ch2, "concurrent first callers of Signal get the same channel")
+	vrt.Assert(isClosed(ch1) && isClosed(ch2), "every channel handed out is closed once Set happened (no lost wake-up)")
+	vrt.Assert(ch1 == s.Signal(), "later observers get that channel too")
+	vrt.Cover("two-signalers-end")
+}
+
+// VerifH_SignalTwoWaiters: two goroutines block in Wait before the signal is set: both are woken.
+func VerifH_SignalTwoWaiters() {
+	s := new(Signal)
+	vrt.Share(s)
+	var e1 error = &sigErr{1}
+	var w1, w2, setDone bool
+	go func() { s.Wait(); w1 = true }()
+	go func() { s.Wait(); w2 = true }()
+	go func() { s.Set(e1); setDone = true }()
+	vrt.Quiesce()
+	vrt.Assert(setDone, "Set returns")
+	vrt.Assert(w1 && w2, "every Wait returns once Set happened")
+	vrt.Cover("two-waiters-end")
+}
